@@ -164,3 +164,5 @@ for _m in ("props_select", "props_regex", "props_cf", "props_misc", "props_dlint
     except ImportError as e:
         if _m not in str(e):
             raise
+    except Exception as e:   # a module under construction must not take the other checks down
+        log("[props] module %s failed to import: %r" % (_m, e))
